@@ -24,7 +24,7 @@ use serde_json::json;
 use crate::{
     fieldrun::ofail,
     fop,
-    prog::{render_prog, Op, NG},
+    prog::{new_ng, render_prog, Op, NG, NG0},
     rec::Rec,
 };
 
@@ -186,15 +186,17 @@ impl Circuit<F> for BigCircuit {
         let instance_column = meta.instance_column();
         let constants_column = meta.fixed_column();
         meta.enable_constant(constants_column);
-        NG::<F>::configure_from_scratch(meta, &[committed_instance_column, instance_column])
+        NG0::<F>::configure_from_scratch(meta, &[committed_instance_column, instance_column])
     }
 
     fn synthesize(&self, config: Self::Config, mut layouter: impl Layouter<F>) -> Result<(), Error> {
-        let ng = NG::<F>::new_from_scratch(&config);
+        let (ng, ng0) = new_ng::<F>(&config);
         let g = BG::new(&ng);
+        crate::trace::reset();
         let mut vars: Vec<Var> = vec![];
         let mut out = Outcome::default();
-        for o in &self.ops {
+        for (oi, o) in self.ops.iter().enumerate() {
+            crate::trace::set_op(oi);
             match catch(|| step(&g, &ng, &mut layouter, &vars, o)) {
                 Err(p) => {
                     out.stopped = Some("P".into());
@@ -219,7 +221,8 @@ impl Circuit<F> for BigCircuit {
         if stopped {
             return Err(Error::Synthesis("program stopped".into()));
         }
-        ng.load_from_scratch(&mut layouter)
+        crate::trace::set_op(self.ops.len());
+        ng0.load_from_scratch(&mut layouter)
     }
 }
 
@@ -606,6 +609,32 @@ pub fn run(ctx: &mut Ctx) {
         }
         ctx.case(&format!("big:{}", case.kind), true, &format!("big ; {prog}"), &format!("{} => {}", outs.join(" | "), verdict));
         ctx.count(&format!("big-verdict:{verdict}"));
+        // range checks of `assign_bounded` as emitted: bit length of every limb of every executed
+        // `in` (assign_biguint), read back from the real decomposition chip
+        if case.ops.iter().any(|o| o.name == "in") {
+            let done = run.outcome.outs.len();
+            let circuit = BigCircuit { ops: case.ops.clone(), outcome: RefCell::new(Outcome::default()) };
+            let _ = catch(|| {
+                let mut cs = ConstraintSystem::<F>::default();
+                let config = BigCircuit::configure(&mut cs);
+                let mut rec = Rec::<F>::default();
+                let constants = cs.constants().clone();
+                let _ = SimpleFloorPlanner::synthesize(&mut rec, &circuit, config, constants);
+            });
+            let events = crate::trace::take_events();
+            let toks: Vec<String> = case
+                .ops
+                .iter()
+                .enumerate()
+                .filter(|(i, o)| *i < done && o.name == "in")
+                .map(|(i, _)| {
+                    let bits: Vec<String> =
+                        events.iter().filter(|e| e.op == i && e.kind == 'A').map(|e| e.bits.to_string()).collect();
+                    format!("{i}:{}", if bits.is_empty() { "-".to_string() } else { bits.join(",") })
+                })
+                .collect();
+            ctx.case("bigrc", true, &format!("bigrc ; {prog}"), &if toks.is_empty() { "-".to_string() } else { toks.join(" | ") });
+        }
         let structural_reject = matches!(case.kind.as_str(), "pi-wrong-bits" | "in-too-wide");
         if r.sat && !structural_reject {
             if verdict != "sat" {
